@@ -59,9 +59,14 @@ import bs4, soupsieve
 MARKUP = """<!DOCTYPE html><html lang="en"><head><meta http-equiv="content-language" content="de"><title>t</title></head><body>
 <div id="d" class="a b"><!--secret--><p id="p1">one<!--two--></p><p id="p2" dir="rtl"></p><p id="p3"><![CDATA[cd]]></p><span id="s"> </span></div>
 <div id="e"><!--only comment--></div><form><input id="i1" type="checkbox" checked><input id="i2" type="number" min="1" max="3" value="5">
-<input id="i3" type="radio" name="n"><button id="b" type="submit">go</button></form><svg xmlns:xlink="http://www.w3.org/1999/xlink" xml:lang="fr"><circle id="c"/><a id="sa" xlink:href="u" href="v"><text id="tx">t</text></a></svg></body></html>"""
+<input id="i3" type="radio" name="n"><button id="b" type="submit">go</button></form><?pi x?>
+<script id="sc">var x</script><style id="st">p{}</style><template id="tp">tmpl</template><ruby id="rb">k<rt id="rt">ruby</rt><rp id="rp">(</rp></ruby><textarea id="ta">area</textarea><p id="auto" dir="auto">\u05d0\u05d1</p><bdi id="bd">\u05d0</bdi><svg xmlns:xlink="http://www.w3.org/1999/xlink" xml:lang="fr"><circle id="c"/><a id="sa" xlink:href="u" href="v"><text id="tx">t</text></a></svg></body></html>"""
 SELECTORS = ["p", "div:empty", "p:-soup-contains(secret)", ":-soup-contains-own(one)", ":root", "p:nth-child(2)", ":lang(en)", "[class~=a]",
-             ":checked", ":dir(rtl)", ":out-of-range", ":default", ":indeterminate", "div > p:not(:empty)", "span:empty, #e:empty", ":has(> circle)"]
+             ":checked", ":dir(rtl)", ":out-of-range", ":default", ":indeterminate", "div > p:not(:empty)", "span:empty, #e:empty", ":has(> circle)",
+             # every string class Beautiful Soup has (script, style, template, ruby text, comment, CDATA, doctype, processing instruction): which of
+             # them count as text is decided by classes the matcher takes from bs4, whenever it was imported
+             ":empty", ":-soup-contains(var)", ":-soup-contains-own(ruby)", "style:-soup-contains('p{}')", "template:-soup-contains(tmpl)", ":-soup-contains-own('(')",
+             ":dir(rtl)", ":dir(ltr)", "html:-soup-contains(secret, two, cd, pi, html)", ":not(:empty)"]
 out = {}
 for parser in ("html.parser", "lxml", "html5lib", "xml"):
     soup = bs4.BeautifulSoup(MARKUP, parser)
